@@ -150,6 +150,9 @@ def combos(chk, rng):
         chk.count(('comb', ci), nontrivial=len(want[0]) >= 2)
         chk.traces_validated += 1
         ok = check_rows(chk, m['op'], got, want, ctx, m['label'])
+        if not np.array_equal(traces, np.array(m['rows'], dtype=m['dtype'])):
+            chk.violation(f'{m["op"]}:the traces handed to a preprocess are left as they were given', dict(ctx, property='C18'), f'{m["label"]}: the input batch was modified')
+            traces = np.array(m['rows'], dtype=m['dtype'])
         if ok:
             # row r of the output depends only on row r of the input: the middle row alone / in another batch
             keep = np.array(got, copy=True)
